@@ -226,9 +226,6 @@ func (d *Descriptor) readAsSlice(out Outputter, data []byte) (n int, err error) 
 				return 0, fmt.Errorf("invalid varint for slice entry %d", i)
 			}
 			offset += n
-			if s == 0 {
-				continue
-			}
 			if s > uint64(len(data)-offset) {
 				return 0, fmt.Errorf("corrupt data reading slice entry %d", i)
 			}
